@@ -367,6 +367,16 @@ class ExprMixin:
             r = self.contains(b, a, node)
             return z_not(r) if isinstance(opn, ast.NotIn) else r
         op = CMP[type(opn)]
+        if (op in ("==", "!=") and isinstance(a, SObj) and not self.ctx.spec_mode and a is not b
+                and self.src.class_has_method(a.cls, "__eq__")):
+            # a == b on an object whose class overloads __eq__: in CODE this calls the overload (by its contract); identity only
+            # for classes without one. (Inside specifications == on objects means identity, e.g. 'result == self'.)
+            q_ = a.cls + ".__eq__"
+            if q_ not in self.reg.contracts and not self.inline_ok(q_):
+                raise Unsupported(f"{self.frame.qualname}:{self.line(node)} == on {a.cls}, whose __eq__ has no contract")
+            r = self.call_method(a, "__eq__", [b], {}, node)
+            r = to_bool_term(r)
+            return z_not(r) if op == "!=" else r
         for x, y, refl in ((a, b, False), (b, a, True)):
             h = getattr(x, "cmpop", None)
             if h is not None and is_sym(x):
